@@ -1,6 +1,53 @@
+(* C04: top-level statements *)
 From Coq Require Import List NArith Bool Arith Lia.
 From K.Model Require Import C04.
+From K.Proof Require Import C04_base C04_inv C04_ops.
 Import ListNotations.
 
-Lemma placeholder : apply_calls fs0 [] = fs0.
-Proof. reflexivity. Qed.
+(* a disk all of whose crash points satisfy the invariant never holds a wrong cache file *)
+Lemma crash_safe_partial : forall c tr k d,
+  wf_cfg c = true -> all_DI c fs0 tr = true ->
+  d_data (ca (crash_at fs0 tr k)) = Some d -> d = c_blob c.
+Proof.
+  intros c tr k d Hwf A E. apply (cache_is_blob c (crash_at fs0 tr k)); [|exact E].
+  apply all_DI_prefix. exact A.
+Qed.
+
+(* ... and what NewTorrent would commit after a crash at any of them is the blob *)
+Lemma commit_after_crash_partial : forall c tr k d b,
+  wf_cfg c = true -> all_DI c fs0 tr = true ->
+  let s := crash_at fs0 tr k in
+  d_data (dl s) = Some d -> d_status (dl s) = Some b -> length b = npieces c ->
+  count_true (deser_status b) = length (deser_status b) -> d = c_blob c.
+Proof.
+  intros c tr k d b Hwf A s Ed Eb L Ct. apply (commit_only_blob c Hwf s d b); auto.
+  apply all_DI_prefix. exact A.
+Qed.
+
+(* ---- witnesses ---- *)
+Definition wc : cfg := mkcfg [97; 98; 99; 100; 101; 102; 103]%N 3 0 [123; 125]%N [1]%N true true.
+
+(* pinned code, crash between the creation and the first write of `_status` (call 10 of CreateTorrent):
+   the restarted agent reports the torrent complete and the cache file is seven zero bytes *)
+Lemma empty_status_refuted : exists c ops k, wf_cfg c = true /\
+  let o := recover (unfixed c) (crash_at fs0 (download_trace (unfixed c) ops) k) in
+  o_out o = OOk /\ o_complete o = true /\ o_cache o <> Some (c_blob c).
+Proof.
+  exists wc, [OCreate [] []], 10. split; [reflexivity|]. vm_compute. repeat split; discriminate.
+Qed.
+
+(* pinned code, crash between the creation and the write of `_torrentmeta` (call 8): CreateTorrent
+   fails, and fails again on the disk the failed attempt leaves *)
+Lemma empty_metainfo_refuted : exists c ops k, wf_cfg c = true /\
+  let s := crash_at fs0 (download_trace (unfixed c) ops) k in
+  o_out (recover (unfixed c) s) = OErr /\ o_out (recover (unfixed c) (recovered_fs (unfixed c) s)) = OErr.
+Proof.
+  exists wc, [OCreate [] []], 8. split; [reflexivity|]. vm_compute. split; reflexivity.
+Qed.
+
+(* fixed code at the same two crash points *)
+Lemma fixed_at_witnesses :
+  let tr := download_trace wc [OCreate [] []] in
+  (let o := recover wc (crash_at fs0 tr 10) in o_out o = OOk /\ o_complete o = false /\ o_cache o = None) /\
+  (let o := recover wc (crash_at fs0 tr 8) in o_out o = OOk /\ o_complete o = false /\ o_cache o = None).
+Proof. vm_compute. repeat split; reflexivity. Qed.
